@@ -586,9 +586,21 @@ fn run_memo(nodes: &[NodeSpec], factsets: &[FactMap], calls: &[(usize, usize)]) 
     let built: Vec<ReteUlNode> = nodes.iter().map(|n| n.node()).collect();
     let node_dbg: Vec<String> = built.iter().map(|n| format!("{:?}", n)).collect();
     let facts: Vec<TypedFacts> = factsets.iter().map(|m| typed(m, None)).collect();
+    // two sweeps over the same calls, each with its own evaluator: (0) every node lives in its own
+    // place for the whole history; (1) the node of each call is rebuilt into ONE slot, so that
+    // successive calls hand over different nodes at the same address (a node edited in place, a
+    // loop variable)
+    for sweep in 0..2 {
     let mut memo = MemoizedEvaluator::new();
+    let mut slot: Option<ReteUlNode> = None;
     for (ci, (ni, fi)) in calls.iter().enumerate() {
-        let (node, f) = (built.get(*ni)?, facts.get(*fi)?);
+        let f = facts.get(*fi)?;
+        let node: &ReteUlNode = if sweep == 0 {
+            built.get(*ni)?
+        } else {
+            slot = Some(nodes.get(*ni)?.node());
+            slot.as_ref()?
+        };
         let got = memo.evaluate(node, f, |n, f| n.evaluate_typed(f));
         let want = node.evaluate_typed(f);
         obs.comparisons += 1;
@@ -617,8 +629,9 @@ fn run_memo(nodes: &[NodeSpec], factsets: &[FactMap], calls: &[(usize, usize)]) 
                 "memo",
                 cause,
                 format!(
-                    "call #{}: MemoizedEvaluator::evaluate({}, {:?}) = {} but evaluate_typed = {}; {}",
+                    "call #{}{}: MemoizedEvaluator::evaluate({}, {:?}) = {} but evaluate_typed = {}; {}",
                     ci,
+                    if sweep == 1 { " (every call's node rebuilt into one reused slot)" } else { "" },
                     node_dbg[*ni],
                     rendered(&factsets[*fi]),
                     got,
@@ -628,7 +641,8 @@ fn run_memo(nodes: &[NodeSpec], factsets: &[FactMap], calls: &[(usize, usize)]) 
             );
         }
     }
-    obs.hits = memo.stats().hits as u64;
+    obs.hits += memo.stats().hits as u64;
+    }
     obs.nontrivial = obs.hits > 0 && obs.trues > 0 && obs.falses > 0;
     Some((out, obs))
 }
@@ -1613,7 +1627,7 @@ impl Check for C16 {
         "C16"
     }
     fn rule(&self) -> String {
-        "Five differential monitors (the fifth, engine-index: a BackwardEngine with memoisation off on a knowledge base of 0..=3 rules `E<n>: when User.<x> > t then <goal field> = true` (8 names, 4 goal fields, 7 saliences); then 3..=12 steps add_rule / remove_rule / set_rule_enabled on engine.knowledge_base(), rebuild_index(), query; every query asked after a rebuild_index() that follows the last edit is compared with an engine built from scratch on the same knowledge base), histories of 1..=10 random ops each (alpha, beta and conclusion: one history in 20 has 40..=300 ops, hundreds of indexed facts / up to 120 rule names), value domain = integers, floats incl. 0.0/-0.0/NaN/+-inf, numeric-looking strings, booleans, (nested) arrays, null (37 values). alpha: ops insert/create_index/drop_index/filter_tracked/auto_tune on the real AlphaMemoryIndex, inserts mirrored into a never-indexed shadow; after EVERY op filter(field, v) is compared as a multiset for 3 fields x every domain value (3/5 of the histories use the domain without NaN/-0.0). beta: ops add/remove (live, removed-before and never-added positions) on BetaMemoryIndex; after every op lookup(key) for the printed key of every domain value and every live fact is compared with the scan of the harness's live list. memo: one MemoizedEvaluator, 2..=10 evaluate calls over 1..=3 generated nodes (in half of the histories plus a near-duplicate of one of them: exactly one parameter of one leaf differs) (alpha nodes with 11 operators x 16 literals, And/Or/Not/Exists/Forall to depth 2, multifield nodes) x 2..=4 fact sets; in half of the histories the fact sets print alike (as_str) but differ in type; every call is compared with evaluate_typed. conclusion: ops add_rule (1..=3 actions Set/Log/MethodCall/Retract, 1/6 disabled) / remove_rule (present or absent name) on ConclusionIndex; after every op find_candidates(goal) must contain every enabled present rule with a Set on the goal's field, for 10 fields (three with non-ASCII letters in their names) x 13 goal spellings (bare field, == != > >= < <= contains matches, tight/blank spacing); 1/3 of the histories add goals whose string literal holds operator text and negated goals (NOT / !). EXHAUSTIVE sub-spaces: all (stored value, probe value) pairs of the domain for alpha (index created before and after the insert) and beta; all ordered pairs of print-alike values x 11 operators x 16 literals for memo. Non-trivial: alpha = some filter answered through an index was non-empty and some was empty; beta / conclusion = a non-empty expected answer after an effective remove; memo = at least one cache hit and both verdicts observed. Distinct by the whole history.".into()
+        "Five differential monitors (the fifth, engine-index: a BackwardEngine with memoisation off on a knowledge base of 0..=3 rules `E<n>: when User.<x> > t then <goal field> = true` (8 names, 4 goal fields, 7 saliences); then 3..=12 steps add_rule / remove_rule / set_rule_enabled on engine.knowledge_base(), rebuild_index(), query; every query asked after a rebuild_index() that follows the last edit is compared with an engine built from scratch on the same knowledge base), histories of 1..=10 random ops each (alpha, beta and conclusion: one history in 20 has 40..=300 ops, hundreds of indexed facts / up to 120 rule names), value domain = integers, floats incl. 0.0/-0.0/NaN/+-inf, numeric-looking strings, booleans, (nested) arrays, null (37 values). alpha: ops insert/create_index/drop_index/filter_tracked/auto_tune on the real AlphaMemoryIndex, inserts mirrored into a never-indexed shadow; after EVERY op filter(field, v) is compared as a multiset for 3 fields x every domain value (3/5 of the histories use the domain without NaN/-0.0). beta: ops add/remove (live, removed-before and never-added positions) on BetaMemoryIndex; after every op lookup(key) for the printed key of every domain value and every live fact is compared with the scan of the harness's live list. memo: one MemoizedEvaluator, 2..=10 evaluate calls over 1..=3 generated nodes (in half of the histories plus a near-duplicate of one of them: exactly one parameter of one leaf differs) (alpha nodes with 11 operators x 16 literals, And/Or/Not/Exists/Forall to depth 2, multifield nodes) x 2..=4 fact sets; in half of the histories the fact sets print alike (as_str) but differ in type; every call is compared with evaluate_typed; every history is run twice, once with long-lived nodes and once with each call's node rebuilt into one reused slot (same address, different content). conclusion: ops add_rule (1..=3 actions Set/Log/MethodCall/Retract, 1/6 disabled) / remove_rule (present or absent name) on ConclusionIndex; after every op find_candidates(goal) must contain every enabled present rule with a Set on the goal's field, for 10 fields (three with non-ASCII letters in their names) x 13 goal spellings (bare field, == != > >= < <= contains matches, tight/blank spacing); 1/3 of the histories add goals whose string literal holds operator text and negated goals (NOT / !). EXHAUSTIVE sub-spaces: all (stored value, probe value) pairs of the domain for alpha (index created before and after the insert) and beta; all ordered pairs of print-alike values x 11 operators x 16 literals for memo. Non-trivial: alpha = some filter answered through an index was non-empty and some was empty; beta / conclusion = a non-empty expected answer after an effective remove; memo = at least one cache hit and both verdicts observed. Distinct by the whole history.".into()
     }
     fn assumptions(&self) -> Vec<String> {
         vec![
